@@ -18,6 +18,7 @@ struct Gen {
   std::vector<int> pool_logm;
   std::vector<int> last_slots;  // recently produced values (most recent last)
   bool has_avx2 = true;
+  int large_life_focus = -1;
   struct LastParams { uint64_t m; double divisor; uint32_t l2; };
   std::map<std::pair<int, int>, LastParams> last_simple;  // (task, op) -> parameters of the previous call (cache collisions)
 
@@ -297,7 +298,8 @@ struct Gen {
     Call c;
     c.op = op;
     c.mod = mod;
-    const bool inplace = r.chance(22, 100);
+    const bool focus_call = force_op >= 0 && cfg.large_world;  // homogeneous work: same entry point, same (in-place) path
+    const bool inplace = r.chance(focus_call ? 85 : (cfg.large_world ? 60 : 22), 100);
     auto set = [&](int k, int slot, uint64_t sz) {
       c.s[k] = slot;
       c.sz[k] = sz;
@@ -324,7 +326,7 @@ struct Gen {
       case OP_NEGATE:
       case OP_ROTATE:
       case OP_AUTOMORPHISM: {
-        int a = src_zv(mod, 61);
+        int a = src_zv(mod, 61, focus_call);
         uint64_t rs;
         int res = out_or_alias(T_ZV, a, &rs);
         set(0, res, rs);
@@ -865,6 +867,41 @@ struct Gen {
 
   bool emit_life_op() {
     Call c;
+    if (cfg.large_world && !P.modules.empty()) {
+      // object creation at the dimension of the world's modules: threshold-dependent table construction, concurrently.
+      // Most tasks of one world create the same kind of object (focus), so that first constructions overlap.
+      const uint64_t n = P.modules[r.below(P.modules.size())].n;
+      if (large_life_focus < 0) large_life_focus = (int)r.below(8);
+      const int kind_sel = r.chance(75, 100) ? large_life_focus : (int)r.below(8);
+      if (kind_sel < 2) {
+        c.op = OP_LIFE_MODULE;
+        c.p[0] = n;
+        c.p[1] = cfg.ntt120 && kind_sel == 0;
+        return push_call(c);
+      }
+      if (kind_sel >= 2) {
+        static const int kinds8[] = {0, 0, TB_Q120_NTT, TB_Q120_INTT, TB_REIM_FFT, TB_REIM_IFFT, TB_CPLX_FFT, TB_CPLX_IFFT};
+        c.op = OP_LIFE_TABLE;
+        c.p[0] = (uint64_t)kinds8[kind_sel];
+        c.p[1] = kind_sel <= 3 ? n : n / 2;
+        c.dp = 1;
+        return push_call(c);
+      }
+      if (r.chance(1, 2)) {
+        c.op = r.chance(3, 4) ? OP_LIFE_MODULE : OP_LIFE_MODULE_PAIR;
+        c.p[0] = n;
+        c.p[1] = cfg.ntt120 && r.chance(1, 2);
+        c.p[2] = r.below(2);
+        c.p[3] = r.below(1000);
+      } else {
+        static const int kinds[] = {TB_Q120_NTT, TB_Q120_INTT, TB_REIM_FFT, TB_REIM_IFFT, TB_CPLX_FFT, TB_CPLX_IFFT};
+        c.op = OP_LIFE_TABLE;
+        c.p[0] = (uint64_t)kinds[r.below(6)];
+        c.p[1] = c.p[0] <= TB_Q120_INTT && c.p[0] >= TB_Q120_NTT ? n : n / 2;
+        c.dp = 1;
+      }
+      return push_call(c);
+    }
     uint64_t lk = r.below(10);
     if (lk == 9) {
       c.op = OP_LIFE_MODULE_SEQ;
@@ -990,7 +1027,9 @@ struct Gen {
   int add_module() {
     ModuleSpec m;
     int lg;
-    if (r.chance((uint32_t)cfg.big_n_pct, 100))
+    if (cfg.large_world)
+      lg = (int)r.range(12, 14);
+    else if (r.chance((uint32_t)cfg.big_n_pct, 100))
       lg = (int)r.range(cfg.max_log2n + 1, cfg.max_big_log2n);
     else
       lg = (int)r.range(1, cfg.max_log2n);
@@ -1053,6 +1092,10 @@ struct Gen {
     if (cfg.edge_products && cfg.module_ops && !P.modules.empty() && r.chance(4, 100)) return emit_edge_product((int)r.below(P.modules.size()));
     int wm = cfg.module_ops ? 55 : 0, wt = cfg.table_ops ? 20 : 0, ws = cfg.simple_ops ? 20 : 0, wq = cfg.q120 ? 8 : 0, wl = cfg.life_ops ? 8 : 0,
         wr = cfg.repeats ? 30 : 0;
+    if (cfg.large_world) {
+      if (cfg.life_ops && x < 45) return emit_life_op();
+      return emit_module_op((int)r.below(P.modules.size()));
+    }
     int wk = cfg.kernel_pairs ? 8 : 0;
     int tot = wm + wt + ws + wq + wl + wr + wk;
     int v = (int)(x * (uint64_t)tot / 100);
@@ -1112,7 +1155,11 @@ struct Gen {
     static const int focus_pool[] = {OP_SMALL_PRODUCT, OP_SVP_APPLY_DFT, OP_VMP_APPLY_DFT, OP_VMP_APPLY_DFT_TO_DFT, OP_IDFT, OP_DFT, OP_NORMALIZE,
                                      OP_BIG_NORMALIZE, OP_SVP_PREPARE, OP_VMP_PREPARE, OP_BIG_RANGE_NORMALIZE, OP_AUTOMORPHISM, OP_ROTATE, OP_ADD};
     int focus[2] = {focus_pool[r.below(14)], focus_pool[r.below(14)]};
-    const bool use_focus = cfg.shared_setup && nm > 0 && r.chance(75, 100);
+    if (cfg.large_world) {
+      static const int big_focus[] = {OP_AUTOMORPHISM, OP_AUTOMORPHISM, OP_ROTATE, OP_IDFT, OP_DFT, OP_SMALL_PRODUCT, OP_VMP_APPLY_DFT, OP_SVP_APPLY_DFT, OP_NORMALIZE, OP_ADD, OP_NEGATE, OP_COPY};
+      focus[0] = focus[1] = big_focus[r.below(12)];
+    }
+    const bool use_focus = cfg.shared_setup && nm > 0 && (cfg.large_world || r.chance(75, 100));
     for (int t = 0; t < cfg.ntasks; ++t) {
       cur_task = t;
       int want = (int)r.range(cfg.min_calls, cfg.max_calls);
